@@ -840,7 +840,7 @@ def mc_uci(work, rep, tier, liveness):
         big = dict(base, MaxCmds=6, NS=3, MaxDepth=3, OutCap=2)
         cfg = vlib.cfg_text(spec="Spec", constants=big, invariants=UCI_INV)
         r = vlib.tlc(work, "Uci", cfg, workers=vlib.NCPU, timeout=1200, heap="8g", name="Uci-simulate-big",
-                     simulate="num=%d" % 20000, extra=["-depth", "120", "-seed", str(seed)])
+                     simulate="num=%d" % 20000, extra=["-depth", "120", "-seed", "20261003"])
         if r.error is not None and "violated" in (r.error or ""):
             raise Inconclusive("Uci.tla (simulation of a larger configuration): %s" % r.error)
         info["simulated_larger_configuration"] = {"constants": big, "behaviours_per_worker": 20000, "states": r.generated, "wall_s": round(r.wall, 1)}
